@@ -83,6 +83,36 @@ pub struct Sched {
 }
 
 struct AbortUnwind;
+/// Unwind payload of an actor that "dies" at a hook (crash injection): treated as a finished actor.
+struct CrashUnwind;
+
+thread_local! {
+    /// (hooks still to pass before dying, flag raised at death)
+    static CRASH: RefCell<Option<(usize, Arc<AtomicBool>)>> = const { RefCell::new(None) };
+}
+
+/// Called after a hook granted the token: dies here when the actor's crash point is reached, i.e.
+/// immediately BEFORE the effect that follows the hook.
+fn maybe_crash() {
+    let die = CRASH.with(|c| {
+        let mut c = c.borrow_mut();
+        match c.as_mut() {
+            Some((0, flag)) => {
+                flag.store(true, Ordering::SeqCst);
+                true
+            }
+            Some((k, _)) => {
+                *k -= 1;
+                false
+            }
+            None => false,
+        }
+    });
+    if die {
+        CRASH.with(|c| *c.borrow_mut() = None);
+        std::panic::resume_unwind(Box::new(CrashUnwind));
+    }
+}
 
 thread_local! {
     static CURRENT: RefCell<Option<(Arc<Sched>, usize)>> = const { RefCell::new(None) };
@@ -178,6 +208,7 @@ impl rip_kernel::verif::Hooks for SchedHooks {
         if let Some((s, id)) = current() {
             if s.wants(name) {
                 s.yield_at(id, name, None);
+                maybe_crash();
             }
         }
     }
@@ -236,6 +267,12 @@ thread_local! {
     static ENV: RefCell<Option<Box<dyn ActorEnv>>> = const { RefCell::new(None) };
 }
 
+/// Installs environment seams for a thread that is not an actor (post-execution checks on the
+/// controller thread). `None` removes them.
+pub fn set_thread_env(env: Option<Box<dyn ActorEnv>>) {
+    ENV.with(|e| *e.borrow_mut() = env);
+}
+
 pub fn install_hooks() {
     rip_kernel::verif::install(Arc::new(SchedHooks));
 }
@@ -271,6 +308,23 @@ impl ActorCtx {
 
     pub fn set_env(&self, env: Box<dyn ActorEnv>) {
         ENV.with(|e| *e.borrow_mut() = Some(env));
+    }
+
+    /// Crash injection: this actor dies (unwinds without running the code after the hook) when it
+    /// is granted its (k+1)-th `point` hook from now on; `dead` is raised at that moment.
+    pub fn crash_at_hook(&self, k: usize, dead: Arc<AtomicBool>) {
+        CRASH.with(|c| *c.borrow_mut() = Some((k, dead)));
+    }
+
+    /// Number of steps granted so far in this execution (a total order on harness-level events).
+    pub fn step_index(&self) -> usize {
+        self.sched.inner.lock().unwrap().steps.len()
+    }
+
+    /// True when some other unfinished actor is currently parked at hook `name`.
+    pub fn other_parked_at(&self, name: &str) -> bool {
+        let g = self.sched.inner.lock().unwrap();
+        g.actors.iter().enumerate().any(|(i, a)| i != self.id && a.status == Status::Parked && a.at == name)
     }
 
     pub fn progress(&self) -> u64 {
@@ -384,9 +438,10 @@ pub fn run_once(actors: Vec<ActorBody>, prefix: &[usize], span_yields: bool, fil
                     body(&ctx);
                 }));
                 ENV.with(|e| *e.borrow_mut() = None);
+                CRASH.with(|c| *c.borrow_mut() = None);
                 CURRENT.with(|c| *c.borrow_mut() = None);
                 let mut g = s.inner.lock().unwrap();
-                let aborted = matches!(&res, Err(p) if p.is::<AbortUnwind>());
+                let aborted = matches!(&res, Err(p) if p.is::<AbortUnwind>() || p.is::<CrashUnwind>());
                 g.actors[id].status = if res.is_ok() || aborted { Status::Finished } else { Status::Panicked };
                 g.actors[id].pred = None;
                 if g.token == Some(id) {
